@@ -127,6 +127,9 @@ type vfC04Pool struct {
 	sticky  map[string]string // key -> server URL
 
 	lastReport *vfC04Report // the report discovery delivered last (nil: none yet)
+
+	retryPolicy  string
+	failureCodes []int
 }
 
 func (p *vfC04Pool) resetEpoch(known bool) {
@@ -173,8 +176,11 @@ var vfC04Policies = []string{LoadBalancePolicyRoundRobin, LoadBalancePolicyRound
 	LoadBalancePolicyHeaderHash, LoadBalancePolicyHeaderHash, "", vfC04PolicyUnset}
 
 type vfC04GenOpts struct {
-	forcePolicy string // "" = draw
-	forceZero   bool   // all static weights zero
+	forcePolicy    string // "" = draw
+	forceZero      bool   // all static weights zero
+	forceDiscovery bool
+	retryPolicy    string // name of a pipeline-level Retry policy the pool refers to
+	failureCodes   []int
 }
 
 // vfC04GenPool draws one pool configuration that ServerPoolSpec.Validate accepts.
@@ -191,7 +197,8 @@ func vfC04GenPool(rt *rapid.T, name string, idx int, o vfC04GenOpts) *vfC04Pool 
 	if p.policy == LoadBalancePolicyHeaderHash {
 		p.headerKey = rapid.SampledFrom([]string{"X-User", "X-User", "x-session", "X-User", ""}).Draw(rt, name+"-hkey")
 	}
-	p.discovery = rapid.IntRange(0, 9).Draw(rt, name+"-discovery") < 6
+	p.discovery = rapid.IntRange(0, 9).Draw(rt, name+"-discovery") < 6 || o.forceDiscovery
+	p.retryPolicy, p.failureCodes = o.retryPolicy, o.failureCodes
 	lo := 1
 	if p.discovery {
 		lo = 0 // serviceName set: an empty static list passes validation
@@ -304,6 +311,16 @@ func (p *vfC04Pool) yaml(sb *strings.Builder) {
 		// serviceRegistry stays empty: the pool starts on its static list and the harness plays
 		// the registry watcher by calling useService (the call the watcher goroutine makes).
 		line("serviceName: vfsvc-%s", p.name)
+	}
+	if p.retryPolicy != "" {
+		line("retryPolicy: %s", p.retryPolicy)
+	}
+	if len(p.failureCodes) > 0 {
+		codes := make([]string, len(p.failureCodes))
+		for i, c := range p.failureCodes {
+			codes[i] = strconv.Itoa(c)
+		}
+		line("failureCodes: [%s]", strings.Join(codes, ", "))
 	}
 	if p.rawPolicy != vfC04PolicyUnset {
 		line("loadBalance:")
